@@ -234,7 +234,7 @@ var c02Deep = tmplAlphabet{
 
 func runC02(c *Ctx) {
 	r := c.Run
-	r.Rule("rule sets (singles over the deep template alphabet × kinds; unordered pairs incl. same-method pairs and triples over the reduced alphabet) × every permutation of registration order in two shapes (methods of one service / one service per method) and both service-config orders × every instantiation of every template (fills {x,a,7,é,Ж9}, ** filled with 1..2 (thorough 3) segments) under each rule's verb; plus the token-limit boundary; distinct = rule sets with at least one dispatched probe")
+	r.Rule("rule sets (singles over the deep template alphabet × kinds; unordered pairs incl. same-method pairs and triples over the reduced alphabet) × every permutation of registration order in two shapes (methods of one service / one service per method) and both service-config orders × every instantiation of every template (fills {x,a,7,é,Ж9}, ** filled with 1..2 (thorough 3) segments) under each rule's verb; plus the token-limit boundary; plus histories with removals: every 3-subset (thorough: 4-subset) of an 11-template family sharing one trie node, each template behind its own scripted back-end, registered in every order, one of them dropped, every probe compared with a mux that registered only the rest; distinct = rule sets with at least one dispatched probe")
 	r.Assume("zero-segment ** , ':' outside the final verb position, non-convertible captures and literal-vs-patterned-variable precedence are not demanded", "orders in which larking rejects the rule set are excluded from the order comparison (accept/reject is C16)")
 
 	var jobs []c02Job
@@ -454,6 +454,7 @@ func runC02(c *Ctx) {
 		r.CapHit("deadline or violation cap reached before all rule sets were probed")
 	}
 	c02TokenLimit(c, shapeA)
+	c02AfterDrop(c)
 }
 
 // c02TokenLimit: paths with up to 31 segments (63 tokens + EOF = larking's documented cap of
@@ -500,6 +501,16 @@ func c02TokenLimit(c *Ctx, s *routeSchema) {
 }
 
 func replayC02(c *Ctx, v report.Violation) {
+	if strings.Contains(v.Key, "after-drop") {
+		sub := *c
+		sub.Run = report.NewRun("C02", "quick", 0, "exploration")
+		c02AfterDrop(&sub)
+		fmt.Printf("replay: after-drop family re-run -> %d violations\n", sub.Run.NumViolations())
+		if sub.Run.NumViolations() > 0 {
+			c.Run.Violation(report.Violation{Oracle: v.Oracle, Key: v.Key, Case: v.Case, Note: "still violated"})
+		}
+		return
+	}
 	var tc c02Case
 	if !remarshal(v.Case, &tc) {
 		fmt.Println("replay: cannot decode case")
